@@ -118,6 +118,39 @@ def extract(config="default", repo=REPO, force=False, quiet=False):
     return out, info
 
 
+def extract_canary(force=False):
+    """Facts of the positive-fixture crate fixtures/canary (E4); cached by the hash of its sources and the driver."""
+    src = os.path.join(VERIF, "fixtures", "canary")
+    out = os.path.join(CACHE, "facts", "canary")
+    want = tree_hash(src, "canary")
+    stamp = os.path.join(out, "STAMP.json")
+    exp = os.path.join(out, "pasfmt_canary.lib.json")
+    if not force and os.path.exists(stamp) and os.path.exists(exp):
+        try:
+            if json.load(open(stamp)).get("hash") == want:
+                return out
+        except Exception:
+            pass
+    if os.path.isdir(out):
+        shutil.rmtree(out)
+    os.makedirs(out)
+    target = os.path.join(CACHE, "target-canary")
+    shutil.rmtree(os.path.join(target, "debug", ".fingerprint"), ignore_errors=True)
+    env = dict(os.environ)
+    env["LD_LIBRARY_PATH"] = os.path.join(nightly_sysroot(), "lib") + ":" + env.get("LD_LIBRARY_PATH", "")
+    env["RUSTFLAGS"] = "-Zmir-opt-level=0 -Awarnings"
+    env["RUSTC_WORKSPACE_WRAPPER"] = DRIVER
+    env["CARGO_TARGET_DIR"] = target
+    env["PASFMT_FACTS_DIR"] = out
+    env["PASFMT_FACTS_CRATES"] = "pasfmt_canary"
+    env["CARGO_NET_OFFLINE"] = "true"
+    r = subprocess.run(["cargo", "+nightly", "check", "--offline"], cwd=src, env=env, stdout=subprocess.PIPE, stderr=subprocess.STDOUT, text=True)
+    if r.returncode != 0 or not os.path.exists(exp):
+        raise ExtractError("extraction of the positive-fixture crate failed:\n%s" % r.stdout[-3000:])
+    json.dump({"hash": want}, open(stamp, "w"))
+    return out
+
+
 if __name__ == "__main__":
     cfg = sys.argv[1] if len(sys.argv) > 1 else "default"
     d, info = extract(cfg, force="--force" in sys.argv)
